@@ -267,3 +267,37 @@ func Harness_C07_RawsocketCloseWithBlockedWriter() {
 	vAssert("no-goroutine-left", vGoroutinesSinceMark() <= 0)
 	vCover("blocked-writer-close-done")
 }
+
+// C06: the router closes a peer while a message of the client is in the
+// hand-over to a handler that has gone (shutdown: the handler exits first, the
+// peers are closed last). Close returns and the reader goroutine ends.
+func Harness_C06_RawsocketCloseWithUnreadMessage() {
+	ser := &vSer{failDeser: map[int]bool{}}
+	var in []byte
+	n := 1 + vChoice("frames-nobody-reads", 2)
+	for k := 0; k < n; k++ {
+		in = append(in, 0, 0, 0, 2, byte(k+1), byte(k+1))
+	}
+	conn := vNewConn(in, true)
+	vGoroutineMark()
+	rs := newRawSocketPeer(conn, ser, vNopLog{}, 512, 512, 4)
+	vQuiesce()
+	vAssert("first-message-deserialized-and-waiting", len(ser.payloads) == 1)
+	done := make(chan struct{})
+	go func() {
+		rs.Close()
+		close(done)
+	}()
+	vQuiesce()
+	vAdvance(int64(10 * time.Second))
+	vQuiesce()
+	select {
+	case <-done:
+	default:
+		vAssert("close-returns", false)
+		return
+	}
+	vAssert("connection-closed", conn.closed)
+	vAssert("reader-goroutine-gone", vGoroutinesSinceMark() <= 0)
+	vCover("unread-message-close-done")
+}
